@@ -436,7 +436,15 @@ func (x *Exec) ifaceContractCall(fr *Frame, st *State, site ssa.Instruction, c *
 			x.storeAddr(st, a, nv)
 		}
 	}
-	res := x.freshResult(fr, st, ms.Name+"!r", rt)
+	var res Val
+	if ms.Pure {
+		// a pure method with postconditions: still a deterministic function of the
+		// receiver and arguments (so that code and specification agree on its value),
+		// additionally constrained by the ensures clauses
+		res = x.ifaceUF(is, ms, recv, args, c.Signature(), st)
+	} else {
+		res = x.freshResult(fr, st, ms.Name+"!r", rt)
+	}
 	penv := &SpecEnv{x: x, vars: map[string]Val{}, cur: st, old: pre, pkg: env.pkg}
 	for k, v := range env.vars {
 		penv.vars[k] = v
